@@ -220,6 +220,7 @@ def run_api(ctx, r, shapes, label):
                         "py_request": rpc.py_type(m.input),
                         "request_b64": codec.encode_b64(m.input.ident.proto, reqd),
                         "consume": "pager",
+                        "again_same_args": True,      # programs: the caller lists twice with the same request object
                         "call_kwargs": {"timeout": 7.0, "metadata": [["x-verif", "1"]]},
                         "script": {path: [{"replies": [codec.encode_b64(m.output.ident.proto, page_json(s, p, "results0", kind))]} for p in hist]}}
                 plans.append((s, m, kind, hist, reqd, call))
@@ -292,6 +293,19 @@ def run_api(ctx, r, shapes, label):
                     ctx.fail("tokens", f"{m.name}: tokens sent {toks} expected {want_toks}", payload)
                 if ok["attrs"].get("next_page_token") != live[-1]["token"]:
                     ctx.fail("attrs", f"{m.name}: pager.next_page_token={ok['attrs'].get('next_page_token')!r} after iteration, last page token {live[-1]['token']!r}", payload)
+                # a second listing with the very same argument objects is a listing like the first one
+                ag = res_.get("again")
+                if ag is not None:
+                    ctx.count("program", "second listing with the same request object (" + call["mode"] + ")")
+                    if "ok" not in ag:
+                        ctx.fail("second-listing-raised", f"{m.name}: second listing with the same arguments: {ag.get('raised')}: {ag.get('msg')}", payload)
+                    else:
+                        got2 = [item_id(kind, it, codec) for it in ag["ok"]["items"]]
+                        srv2 = [x for x in ag["server"] if x["path"].endswith("/" + s["name"])]
+                        toks2 = [(codec.decode(m.input.ident.proto, rec["requests"][0]) if rec["requests"] else {}).get("page_token", "") for rec in srv2]
+                        if sorted(map(str, got2)) != sorted(map(str, got)) or toks2 != toks:
+                            ctx.fail("second-listing-differs", f"{m.name}: listing again with the same request object yielded {got2} (tokens sent {toks2}); "
+                                     f"the first listing yielded {got} (tokens {toks})", payload)
                 # ---- correspondence with the model
                 ctx.traces += 1
                 if kind not in ("enum",):
